@@ -24,6 +24,14 @@ let run_c13 toks obs =
     else if not (accepts seqno_step [] tr) then Printf.sprintf "PROPFAIL %s sig=seqno-reused two call frames on the wire carry the same sequence number" id
     else if not (accepts cancel_step [] tr) then Printf.sprintf "PROPFAIL %s sig=cancel-before-call a cancellation frame precedes its call frame on the wire" id
     else if not (accepts order_step { o_returned = []; o_befores = []; o_written = [] } tr) then Printf.sprintf "PROPFAIL %s sig=order-not-kept a send that began after another had returned reached the wire before it" id
+    else if List.exists (fun nn ->
+              (* these sends returned a context error while the writer was stuck inside Write (script knowledge): they were
+                 abandoned before the hand-off, so no call / notification frame of theirs may ever be written *)
+              let nz = Values.z_to_coq (ZZ.of_string nn) in
+              List.exists (function ARet (c, RCtx) -> c = nz | _ -> false) tr &&
+              List.exists (function AWrite fi | AWriteFail fi -> fi.fi_nonce = nz && (fi.fi_kind = KCall || fi.fi_kind = KCallC || fi.fi_kind = KNotify) | _ -> false) tr)
+            (split_on ',' (kv "neverwritten" k)) then
+      Printf.sprintf "PROPFAIL %s sig=abandoned-send-written a send that returned its context's error while the writer was stuck inside Write (so it was never handed over) reached the wire afterwards" id
     else match Abstract.timeouts evs with
       | [] -> Printf.sprintf "AGREE %s %s" id (nt k)
       | t :: _ -> Printf.sprintf "MISMATCH %s harness wait timed out: %s" id t)
